@@ -1,5 +1,44 @@
-from codecmode import run
+import json, os
+import codec, httpdrv
+from codecmode import MODELLED
+from generic import run_check
+from lib import sh, env_go, Broken
 
 
 def main(tier, seed, replay):
-    return run("C04", "c04", tier, seed, replay, "Props.C04", "corr:hostile-input (cursor-level ROR2 model vs the readers: outcome class and value on every hostile string)")
+    def build(work):
+        exe, schema = codec.build_driver(work)
+        return exe, dict(VERIF_SCHEMA=schema, VERIF_MODE="c04")
+
+    def post(run, rep, out):
+        # HTTP level (oracle on the implementation only): malformed requests -> 4xx, no 5xx / panic / hang / resource invocation;
+        # malformed responses -> the generated client returns an error
+        hwork = os.path.join(run.work, "http")
+        os.makedirs(hwork, exist_ok=True)
+        exe, schema = httpdrv.build_driver(hwork)
+        hout = os.path.join(hwork, "out")
+        rc, o = sh([exe, "--out", hout, "--tier", tier, "--seed", str(seed)], cwd=hwork,
+                   env=env_go(dict(VERIF_SCHEMA=schema, VERIF_MODE="c04http")), timeout=1500)
+        if rc != 0:
+            raise Broken("correspondence", "HTTP-level hostile-input driver failed (exit %s)" % rc, o[-4000:])
+        hrep = json.load(open(os.path.join(hout, "report.json")))
+        for f in hrep["failures"]:
+            run.fail_input(f["sig"], f["what"], f["case"], site=f.get("site"), impl=f.get("impl"))
+        run.cov["http_level"] = dict(evaluations=hrep["evaluations"], distinct_nontrivial=hrep["distinct_nontrivial"],
+                                     rule=hrep["rule"], input_distribution=hrep["distribution"],
+                                     samples=hrep["samples"][:3])
+        run.log("HTTP level: %d evaluations, %d oracle failures" % (hrep["evaluations"], len(hrep["failures"])))
+
+    codec.write_fam_env()
+    return run_check(
+        "C04", tier, seed, replay,
+        tables=["TablesCodec"],
+        model_targets=["Corr/CodecCorr.vo"],
+        prop_module="Props.C04",
+        driver="codecdrv", build=build, post=post,
+        corr_name="corr:hostile-input (cursor-level ROR2 model vs the readers: outcome class and value on every hostile string)",
+        trusted=MODELLED + ["HTTP level (malformed requests / responses through the generated server and client) and JSON bodies are decided by the "
+                            "property oracle on the implementation only: net/http and easyjson's lexer are external"],
+        assume=[],
+        coqchk_modules=["GR.Props.C04"],
+    )
